@@ -1,9 +1,95 @@
-import Ruint.Model.Modular
+import Ruint.Lemmas.ModularInv
 
-/-! # C10 — modular arithmetic (placeholder while the lemmas are re-homed) -/
+/-!
+# C10 — modular arithmetic returns the canonical residue for every modulus
+
+Property theorems only. The model functions (`Ruint.Modular.*`, file `Model/Modular.lean`) are the ones the
+correspondence driver executes against `Uint::{reduce_mod, add_mod, mul_mod, pow_mod, inv_mod}`.
+They are L2 models (DESIGN §3.3a): control structure mirrored (early returns for `m = 0` / `m ≤ 1`, reductions, the
+carry out of `BITS` and the single conditional subtraction in `add_mod`, the `nlimbs(2·BITS)`-limb product buffer
+and the division by the `LIMBS`-limb modulus in `mul_mod`, the square-and-multiply loop, `inv_mod`'s Lehmer loop with
+one cofactor pair in two's complement, the `even` flag and the exit patch), body operations = value-level
+specifications of the `Uint` operations (C01, C02, C03, C05, C14, C15) and the model of `LehmerMatrix::from` /
+`Matrix::apply` proved under C12.
+
+A `Uint<bits>` is a natural number below `2^bits`. **All widths** (`bits = 0` included), **all operands — not required
+to be reduced — and all moduli** (`m = 0`, `1`, `2`, `2^k`, `2^bits − 1`, …).
+-/
 namespace Ruint.C10
 open Ruint Ruint.Modular
 
-theorem reduce_mod_zero (a : Nat) : reduceMod a 0 = 0 := by simp [reduceMod]
+/-- `reduce_mod = a mod m`, `0` for `m = 0`, result in `[0, m)`. -/
+theorem reduce_mod_spec (a m : ℕ) :
+    reduceMod a m = (if m = 0 then 0 else a % m) ∧ (0 < m → reduceMod a m < m) :=
+  ⟨reduceMod_spec a m, reduceMod_lt a m⟩
+
+/-- `add_mod = (a + b) mod m` for unreduced operands, whether or not the sum of the reduced operands carries out
+    of `BITS`; `0` for `m = 0`; result in `[0, m)`. -/
+theorem add_mod_spec (bits a b m : ℕ) (hm : m < 2 ^ bits) :
+    addMod bits a b m = (if m = 0 then 0 else (a + b) % m) ∧ (0 < m → addMod bits a b m < m) := by
+  have h := addMod_spec bits a b m hm
+  refine ⟨h, fun hpos => ?_⟩
+  rw [h]; simp only [show m ≠ 0 by omega, if_false]; exact Nat.mod_lt _ hpos
+
+/-- `mul_mod = (a · b) mod m`: the full double-width product fits the `nlimbs(2·BITS)`-limb buffer
+    (`debug_assert!(!overflow)` holds — "computed without intermediate overflow"), `0` for `m = 0`, result in `[0, m)`. -/
+theorem mul_mod_spec (bits a b m : ℕ) (ha : a < 2 ^ bits) (hb : b < 2 ^ bits) :
+    mulMod bits a b m = (if m = 0 then 0 else (a * b) % m) ∧ mulModOverflow bits a b = false
+      ∧ (0 < m → mulMod bits a b m < m) :=
+  ⟨(mulMod_spec bits a b m ha hb).1, (mulMod_spec bits a b m ha hb).2, mulMod_lt bits a b m⟩
+
+/-- `pow_mod = a^e mod m` (square-and-multiply over `mul_mod`), `0` for `m = 0`, `0 = a^e mod 1` for `m = 1`,
+    `0^0 mod m = 1 mod m`; result in `[0, m)`. -/
+theorem pow_mod_spec (bits a e m : ℕ) (ha : a < 2 ^ bits) (he : e < 2 ^ bits) (hm : m < 2 ^ bits) :
+    powMod bits a e m = (if m = 0 then 0 else a ^ e % m) ∧ (0 < m → powMod bits a e m < m) := by
+  have h := powMod_spec bits a e m ha he hm
+  refine ⟨h, fun hpos => ?_⟩
+  rw [h]; simp only [show m ≠ 0 by omega, if_false]; exact Nat.mod_lt _ hpos
+
+/-- `inv_mod(a, m)`: never panics; returns `Some(x)` **exactly when** `m ≥ 2 ∧ gcd(a, m) = 1`, and then `x < m` and
+    `a·x ≡ 1 (mod m)`; `None` otherwise (`m = 0`, `m = 1`, `a ≡ 0`, common factor). `a` need not be reduced.
+    The matrices are those of the model of `LehmerMatrix::from`, whose contract is a theorem (C12), so nothing is
+    assumed about them. -/
+theorem inv_mod_spec (bits a m : ℕ) (ha : a < 2 ^ bits) (hm : m < 2 ^ bits) :
+    ∃ r, invMod bits a m = some r
+      ∧ ((∃ x, r = some x) ↔ (2 ≤ m ∧ Nat.gcd a m = 1))
+      ∧ (∀ x, r = some x → x < m ∧ (a * x) % m = 1) := by
+  obtain ⟨r, h1, h2, h3⟩ := invMod_spec bits a m ha hm
+  refine ⟨r, h1, ?_, h3⟩
+  cases r with
+  | none =>
+    have := h2.1 rfl
+    simp only [reduceCtorEq, exists_false, false_iff]; exact this
+  | some x =>
+    have : ¬ ¬ (2 ≤ m ∧ Nat.gcd a m = 1) := fun hn => by
+      have := h2.2 hn; simp at this
+    simp only [Option.some.injEq, exists_eq', true_iff]
+    exact not_not.1 this
+
+/-- the inverse is unique: any `y < m` with `a·y ≡ 1` equals the returned value. -/
+theorem inv_mod_unique (bits a m x y : ℕ) (ha : a < 2 ^ bits) (hm : m < 2 ^ bits)
+    (h : invMod bits a m = some (some x)) (hy : y < m) (hay : (a * y) % m = 1) : y = x := by
+  obtain ⟨r, h1, _, h3⟩ := invMod_spec bits a m ha hm
+  rw [h] at h1
+  have hr : r = some x := by injection h1 with h1; exact h1.symm
+  obtain ⟨hx, hax⟩ := h3 x hr
+  -- y = y·(a·x) = (y·a)·x = x (mod m)
+  have e1 : (y * (a * x)) % m = y % m := by
+    rw [Nat.mul_mod, hax, Nat.mul_one, Nat.mod_mod]
+  have e2 : (y * (a * x)) % m = x % m := by
+    have : y * (a * x) = (a * y) * x := by ring
+    rw [this, Nat.mul_mod, hay, Nat.one_mul, Nat.mod_mod]
+  rw [Nat.mod_eq_of_lt hy] at e1
+  rw [Nat.mod_eq_of_lt hx] at e2
+  omega
+
+/-! Non-vacuity: concrete instances evaluated by the kernel at a 65-bit width (two limbs, masked top limb):
+unreduced operands, a sum that carries out of `BITS`, a product needing all four limbs, and an inverse. -/
+example : addMod 65 0x1ffffffffffffffff 0x1fffffffffffffffe 0x1ffffffffffffffff = 0x1fffffffffffffffe := by
+  decide +kernel
+example : mulMod 65 0x1ffffffffffffffff 0x1fffffffffffffffe 0x1fffffffffffffffd = 2 := by decide +kernel
+example : powMod 65 3 0x1ffffffffffffffff 0x1fffffffffffffffd = 0x26ef2daade6ed811 := by decide +kernel
+example : invMod 65 3 0x1fffffffffffffffd = some (some 0xaaaaaaaaaaaaaaaa) := by decide +kernel
+example : invMod 64 4 6 = some none := by decide +kernel
 
 end Ruint.C10
